@@ -91,6 +91,8 @@ def verify_function_cases(reg, contract, prefix=""):
     by the key-domain obligations)."""
     import itertools
 
+    if getattr(contract, "arg_cases", None):
+        return [verify_function(reg, contract, prefix, {"__case__": i}) for i in range(len(contract.arg_cases))]
     if not contract.split_on:
         return [verify_function(reg, contract, prefix)]
     doms = [contract.str_domains[p] for p in contract.split_on]
@@ -101,9 +103,22 @@ def verify_function_cases(reg, contract, prefix=""):
     return out
 
 
+def _refs_of(v):
+    if v.k == "ref":
+        yield v
+    elif v.k == "tuple":
+        for x in v.z:
+            for r in _refs_of(x):
+                yield r
+
+
 def verify_function(reg, contract, prefix="", fixed=None):
     """The real function body against its contract."""
     uid = prefix + "fn:" + contract.fq + ("".join("[%s=%s]" % kv for kv in sorted((fixed or {}).items())))
+    argtypes = dict(contract.args)
+    if fixed and "__case__" in fixed:
+        argtypes.update(contract.arg_cases[fixed["__case__"]])
+        fixed = {k: v for k, v in fixed.items() if k != "__case__"}
     res = UnitResult(uid, "function")
     ctx = Ctx(reg, uid)
     res.ctx = ctx
@@ -114,7 +129,7 @@ def verify_function(reg, contract, prefix="", fixed=None):
         res.src = fsrc
         body = frontend.strip_docstring(fsrc.node)
         for (pn, default) in fsrc.params():
-            t = contract.args.get(pn)
+            t = argtypes.get(pn)
             if t is None:
                 raise Unsupported("contract of %s gives no type for parameter %s" % (contract.fq, pn))
             if fixed and pn in fixed:
@@ -126,9 +141,9 @@ def verify_function(reg, contract, prefix="", fixed=None):
             st.env[pn] = v
             st.defd[pn] = z3.BoolVal(True)
             res.params.append((pn, v))
-            if v.k == "ref":
-                ctx.param_refs.append(v.z)
-                ctx.facts.append(v.z > 0)
+            for rv in _refs_of(v):
+                ctx.param_refs.append(rv.z)
+                ctx.facts.append(rv.z > 0)
             if v.k == "str" and v.x is None and pn in contract.str_domains:
                 ctx.str_domains[v.z.get_id()] = list(contract.str_domains[pn])
         if fsrc.node.args.vararg:
